@@ -642,13 +642,13 @@ theorem wf_chain (cfg : Cfg) (hwf : cfg.wf = true) (q : Nat) (hq : cfg.isConc q 
     (cfg.chainOf q).Nodup ∧ ∀ q' ∈ cfg.chainOf q, cfg.isConc q' = true := by
   simp only [Cfg.wf, Bool.and_eq_true, List.all_eq_true, List.mem_range, Bool.or_eq_true,
     Bool.not_eq_true', decide_eq_true_eq] at hwf
-  rcases hwf.1.1.2 q (isConc_lt cfg q hq) with h | h
+  rcases hwf.1.1.1.2 q (isConc_lt cfg q hq) with h | h
   · rw [hq] at h; cases h
   · exact h
 
 theorem wf_gc (cfg : Cfg) (hwf : cfg.wf = true) : 0 < cfg.gc := by
   simp only [Cfg.wf, Bool.and_eq_true, decide_eq_true_eq] at hwf
-  exact hwf.1.1.1
+  exact hwf.1.1.1.1
 
 theorem chainOf_head (cfg : Cfg) (q : Nat) : ∃ rest, cfg.chainOf q = q :: rest := by
   simp only [Cfg.chainOf, chainFuel]; exact ⟨_, rfl⟩
@@ -1393,7 +1393,7 @@ theorem wf_sysDecs (cfg : Cfg) (hwf : cfg.wf = true) (q : Nat) (hq : cfg.isConc 
     q ∈ cfg.sysDecs := by
   simp only [Cfg.wf, Bool.and_eq_true, List.all_eq_true, List.mem_range, Bool.or_eq_true,
     Bool.not_eq_true', List.contains_iff_mem] at hwf
-  rcases hwf.2 q (isConc_lt cfg q hq) with h | h
+  rcases hwf.1.2 q (isConc_lt cfg q hq) with h | h
   · rw [hq] at h; cases h
   · exact h
 
@@ -1637,11 +1637,33 @@ theorem step_adv (cfg : Cfg) (t : Tracker) (s : S) (d : Nat)
 
 /-! ### Request -/
 
-theorem mem_concPath (cfg : Cfg) (q : Nat) (h : cfg.concPath.contains q = true) :
+theorem wf_fixed_chain (cfg : Cfg) (hwf : cfg.wf = true) (q0 : Nat) (hlt : q0 < cfg.quotas.length)
+    (hf : cfg.isConc q0 = false) : cfg.chainOf q0 = [q0] := by
+  simp only [Cfg.wf, Bool.and_eq_true, List.all_eq_true, List.mem_range, Bool.or_eq_true,
+    Option.isNone_iff_eq_none] at hwf
+  rcases hwf.2 q0 hlt with h | h
+  · rw [hf] at h; cases h
+  · simp [Cfg.chainOf, chainFuel, h]
+
+theorem wf_order_lt (cfg : Cfg) (hwf : cfg.wf = true) (q0 : Nat) (h : q0 ∈ cfg.order) : q0 < cfg.quotas.length := by
+  simp only [Cfg.wf, Bool.and_eq_true, List.all_eq_true, decide_eq_true_eq] at hwf
+  exact hwf.1.1.2 q0 h
+
+theorem mem_concPath (cfg : Cfg) (hwf : cfg.wf = true) (q : Nat) (h : cfg.concPath.contains q = true) :
     ∃ q0 ∈ cfg.order, cfg.isConc q0 = true ∧ q ∈ cfg.chainOf q0 := by
-  simp only [Cfg.concPath, List.contains_iff_mem, List.mem_flatMap, List.mem_filter] at h
-  obtain ⟨q0, ⟨h1, h2⟩, h3⟩ := h
-  exact ⟨q0, h1, h2, h3⟩
+  simp only [Cfg.concPath, List.contains_iff_mem, List.mem_filter, List.mem_flatMap] at h
+  obtain ⟨⟨q0, h1, h3⟩, hc⟩ := h
+  refine ⟨q0, h1, ?_, h3⟩
+  cases hq0 : cfg.isConc q0 with
+  | true => rfl
+  | false =>
+    rw [wf_fixed_chain cfg hwf q0 (wf_order_lt cfg hwf q0 h1) hq0] at h3
+    simp at h3; subst h3; rw [hq0] at hc; cases hc
+
+theorem concPath_intro (cfg : Cfg) (hwf : cfg.wf = true) (q0 q : Nat) (h0 : q0 ∈ cfg.order)
+    (hc0 : cfg.isConc q0 = true) (hq : q ∈ cfg.chainOf q0) : q ∈ cfg.concPath := by
+  simp only [Cfg.concPath, List.mem_filter, List.mem_flatMap]
+  exact ⟨⟨q0, h0, hq⟩, (wf_chain cfg hwf q0 hc0).2 q hq⟩
 
 /-- `r`'s slots are on chains of quotas `r` touched. -/
 def HeldR (cfg : Cfg) (r : Nat) (s : S) : Prop :=
@@ -1788,11 +1810,11 @@ theorem step_req (cfg : Cfg) (hwf : cfg.wf = true) (t : Tracker) (s : S) (r : Na
         · rcases hv with e | e <;> subst e <;> simp [hfree q hc]
       · rcases hv with e | e
         · subst e
-          simp only [refusalOk, List.any_eq_true, decide_eq_true_eq]
+          simp only [refusalOk, Bool.or_eq_true, List.any_eq_true, decide_eq_true_eq]
+          left
           obtain ⟨q0, hq0, hc0, q, hq, h1, h2⟩ := userFlow_false cfg hwf cfg.order r _ (hvf rfl)
           refine ⟨q, ?_, ?_⟩
-          · simp only [Cfg.concPath, List.mem_flatMap, List.mem_filter]
-            exact ⟨q0, ⟨hq0, hc0⟩, hq⟩
+          · exact concPath_intro cfg hwf q0 q hq0 hc0 hq
           · rw [ts]
             cases hinc q with
             | same e => rw [← e.1]; exact h2
@@ -1827,7 +1849,7 @@ theorem step_req (cfg : Cfg) (hwf : cfg.wf = true) (t : Tracker) (s : S) (r : Na
             | false => left; rfl
             | true =>
               right
-              obtain ⟨q0, hq0, hc0, hq⟩ := mem_concPath cfg q hcp
+              obtain ⟨q0, hq0, hc0, hq⟩ := mem_concPath cfg hwf q hcp
               have := userFlow_true cfg hwf cfg.order r _ hok q0 hq0 hc0 q hq
               exact ((hIM.jq q).holds_iff r).mpr this
         · simp [refusalOk]
@@ -1873,8 +1895,7 @@ theorem refused_full (cfg : Cfg) (hwf : cfg.wf = true) (s : S) (r : Nat) (post :
   | false =>
     obtain ⟨q0, hq0, hc0, q, hq, h1, h2⟩ := userFlow_false cfg hwf cfg.order r _ hok
     refine ⟨q, ?_, ?_⟩
-    · simp only [Cfg.concPath, List.mem_flatMap, List.mem_filter]
-      exact ⟨q0, ⟨hq0, hc0⟩, hq⟩
+    · exact concPath_intro cfg hwf q0 q hq0 hc0 hq
     · cases (incPhase_rel cfg hwf s r q).1 with
       | same e => rw [← e.1]; exact h2
       | added _ _ _ ha =>
@@ -1897,7 +1918,7 @@ theorem admitted_holds (cfg : Cfg) (hwf : cfg.wf = true) (s : S) (r : Nat) (post
     simp only [hok, Bool.not_true, Bool.false_eq_true, if_false] at h ⊢
     split
     · rename_i he; simp [he] at h
-    · obtain ⟨q0, hq0, hc0, hq'⟩ := mem_concPath cfg q (List.contains_iff_mem.mpr hq)
+    · obtain ⟨q0, hq0, hc0, hq'⟩ := mem_concPath cfg hwf q (List.contains_iff_mem.mpr hq)
       have := userFlow_true cfg hwf cfg.order r _ hok q0 hq0 hc0 q hq'
       have hJM : JQ (incPhase cfg s r).1 q := (hjq q).inc (incPhase_rel cfg hwf s r q).1
       exact (hJM.holds_iff r).mpr this
